@@ -258,7 +258,7 @@ func run(prop string, cfg propCfg, tier string, seed uint64) int {
 		defer os.RemoveAll(workDir)
 		defer os.RemoveAll(buildDir)
 	}
-	os.MkdirAll(filepath.Join(*verifDir, "evidence"), 0o755)
+	os.MkdirAll(evidenceDir(), 0o755)
 	os.MkdirAll(filepath.Join(*verifDir, "replays"), 0o755)
 
 	ncpu := runtime.NumCPU()
@@ -876,7 +876,17 @@ func writeEvidence(prop string, cfg propCfg, tier string, seed uint64, agg *fw.R
 		"assumptions": cfg.Assume, "wall_s": float64(int(wall.Seconds()*10)) / 10, "violations": violations,
 	}
 	b, _ := json.MarshalIndent(ev, "", " ")
-	os.WriteFile(filepath.Join(*verifDir, "evidence", prop+".json"), append(b, '\n'), 0o644)
+	os.WriteFile(filepath.Join(evidenceDir(), prop+".json"), append(b, '\n'), 0o644)
+}
+
+// evidenceDir: <verif>/evidence; the development tools that run a check against a scratch copy of the library with a
+// change applied (tools/eval_round.sh, tools/confirm_seeded.sh) point VERIF_EVIDENCE_DIR elsewhere, so that the evidence
+// directory only ever describes runs against the library itself.
+func evidenceDir() string {
+	if d := os.Getenv("VERIF_EVIDENCE_DIR"); d != "" {
+		return d
+	}
+	return filepath.Join(*verifDir, "evidence")
 }
 
 func doReplay(path string) int {
